@@ -38,6 +38,8 @@ def main():
             print(pid, 'm%s' % k, kind, flush=True)
     finally:
         sh('git -C %s worktree remove --force %s' % (REPO, WT))
+        sh('git checkout -q -- evidence', cwd=VERIF)      # the checks above rewrote evidence files from changed trees
+        sh('./check --setup', cwd=VERIF)                 # ... and regenerated coq/Gen/Facts.v from them
     with open(os.path.join(VERIF, 'seeded', 'FINAL.md'), 'w') as fh:
         fh.write('# Seeded changes re-checked on the final tree (own check, quick tier)\n\n')
         n = len(rows)
